@@ -5,6 +5,7 @@ bystander handler invocations / frames / state, decodability of what reaches
 handlers, post-attack probes, allocation bound per frame (tracemalloc).
 """
 import base64
+import copy
 import json
 import resource
 import time
@@ -661,6 +662,71 @@ class Attack:
             return self.fail('room broadcast reached bystanders %r, expected'
                              ' %r' % (got, want))
 
+    def shared_payload_probe(self):
+        """An application that keeps what its clients send: the handler of
+        'keep' stores its argument in the sender's session, the handler of
+        'edit' edits the stored object in place.  A bystander and the
+        offender send textually identical 'keep' frames; the offender then
+        edits its own copy.  The bystander's session is untouched."""
+        r, rng, ctx = self.r, self.rng, self.ctx
+        cand = [(k, sid) for k, sid in sorted(self.by.items())
+                if (self.OT, k[1]) in r.issued]
+        if not cand:
+            return
+        (T, ns), sid = rng.choice(cand)
+        sio = r.sio
+        if not getattr(self, '_keep_registered', None):
+            self._keep_registered = set()
+        if ns not in self._keep_registered:
+            self._keep_registered.add(ns)
+            is_async = r.d.is_async
+
+            def keep(s, arg):
+                def go():
+                    return sio.save_session(s, {'kept': arg}, namespace=ns)
+                return go()
+
+            def edit(s, mark):
+                async def ago():
+                    sess = await sio.get_session(s, namespace=ns)
+                    touch(sess, mark)
+
+                def touch(sess, mark):
+                    kept = sess.get('kept')
+                    if isinstance(kept, dict):
+                        kept.setdefault('prefs', {})['n'] = mark
+                        kept.setdefault('log', []).append(mark)
+                if is_async:
+                    return ago()
+                touch(sio.get_session(s, namespace=ns), mark)
+            if is_async:
+                async def akeep(s, arg):
+                    await keep(s, arg)
+
+                async def aedit(s, mark):
+                    await edit(s, mark)
+                sio.on('keep', akeep, namespace=ns)
+                sio.on('edit', aedit, namespace=ns)
+            else:
+                sio.on('keep', keep, namespace=ns)
+                sio.on('edit', edit, namespace=ns)
+        self.tok += 1
+        payload = {'prefs': {'n': 1, 'tag': 'p%d' % self.tok}, 'log': []}
+        res = r.step(['event', T, ns, 'keep', [copy.deepcopy(payload)], None])
+        if res.get('errors'):
+            return self.fail('bystander event raised: %s' %
+                             res['errors'][0]['exc'])
+        self.sessions[(T, ns)] = {'kept': copy.deepcopy(payload)}
+        for _ in range(rng.choice([1, 2])):
+            r.step(['event', self.OT, ns, 'keep', [copy.deepcopy(payload)],
+                    None])
+        r.step(['event', self.OT, ns, 'edit', ['edited by the offender'],
+                None])
+        r.d.clear_errors()
+        ctx.count('identical_payloads_kept_by_two_clients')
+        self.bystander_state_ok('after the offender edited its own copy of '
+                                'a payload that a bystander had sent too')
+
     def final_probes(self):
         r, ctx = self.r, self.ctx
         if not self.bystander_state_ok('after the attack'):
@@ -740,6 +806,10 @@ class Attack:
                 return
             if rng.random() < 0.15:
                 self.bystander_traffic()
+                if self.failed:
+                    return
+            if rng.random() < 0.03:
+                self.shared_payload_probe()
                 if self.failed:
                     return
             if rng.random() < 0.1:
@@ -822,6 +892,7 @@ def run(ctx):
     ctx.require('digit_runs_of_several_hundred_thousand', 5)
     ctx.require('connects_with_non_string_namespace', 5)
     ctx.require('bystander_departure_probes', 20)
+    ctx.require('identical_payloads_kept_by_two_clients', 10)
     # the offender's well-formed churn handled by one thread while another
     # thread serves a bystander (controlled scheduler, statement level)
     from checks import c12_sched
